@@ -329,6 +329,25 @@ DEREF_CASES = [
 
 # offset_of! at a generic call site, evaluated for one instantiation and then for another in the same process: the
 # value reported is that of the SECOND instantiation (anything the expansion keeps between evaluations would show)
+RUST_TUPLE_CASES = [
+    # (module, definition, type, field, alignment of the field): default-repr tuple structs, whose fields the compiler reorders
+    ("rtup_pair0", "#[derive(Default)] pub struct RP(pub u8, pub u32);", "RP", "0", 1),
+    ("rtup_pair1", "#[derive(Default)] pub struct RP(pub u8, pub u32);", "RP", "1", 4),
+    ("rtup_trip0", "#[derive(Default)] pub struct RT(pub u16, pub u64, pub u8);", "RT", "0", 2),
+    ("rtup_trip2", "#[derive(Default)] pub struct RT(pub u16, pub u64, pub u8);", "RT", "2", 1),
+    ("rtup_gen0", "#[derive(Default)] pub struct RG<T>(pub u8, pub T);", "RG::<u64>", "0", 1),
+    ("rnamed_a", "#[derive(Default)] pub struct RN { pub a: u8, pub b: u64, pub c: u16 }", "RN", "a", 1),
+]
+
+
+def rust_tuple_module(defn, ty, field):
+    cty = ty.replace("::<", "<")
+    return (defn + "\npub fn facts() -> String {\n"
+            "  let a = bytemuck::offset_of!(%s, %s) as i64;\n"
+            "  let b = bytemuck::offset_of!(<%s as Default>::default(), %s, %s) as i64;\n"
+            "  format!(\"{} {} {}\", a, b, core::mem::offset_of!(%s, %s)) }" % (ty, field, ty, ty, field, cty, field))
+
+
 GENERIC_OFFSET_CASES = [
     # (module, first instantiation, second instantiation, alignment of the probed field in the second)
     ("goff_u8_u64", "u8", "u64", 8), ("goff_u64_u16", "u64", "u16", 2), ("goff_u32_u8", "u32", "u8", 1), ("goff_u16_u128", "u16", "u128", 16),
@@ -379,6 +398,8 @@ def offset_modules(defs):
         mods.append((m, text))
     for (m, first, second, _) in GENERIC_OFFSET_CASES:
         mods.append((m, generic_offset_module(first, second)))
+    for (m, defn, ty, field, _) in RUST_TUPLE_CASES:
+        mods.append((m, rust_tuple_module(defn, ty, field)))
     return mods
 
 
@@ -461,6 +482,14 @@ def struct_lines(defs, verdicts, facts):
         if m in verdicts:
             lines.append("504 0 0 0 0 0 0 0 0 - ; V %d ; %s ; 3" % (1 if verdicts[m] is None else 0, m))
     for (m, first, second, falign) in GENERIC_OFFSET_CASES:
+        if m in verdicts:
+            if verdicts[m] is None and m in facts:
+                a, b, c = [int(x) for x in facts[m].split()]
+                v = [1, 0, falign, a, b, c]
+            else:
+                v = [0, 0, falign, -1, -1, falign]
+            lines.append("503 0 0 0 0 0 0 0 0 - ; V %s ; %s ; 3" % (" ".join(str(x) for x in v), m))
+    for (m, defn, ty, field, falign) in RUST_TUPLE_CASES:
         if m in verdicts:
             if verdicts[m] is None and m in facts:
                 a, b, c = [int(x) for x in facts[m].split()]
@@ -958,6 +987,12 @@ use core::hash::{Hash, Hasher};
 #[derive(Clone, Copy, Pod, Zeroable, ByteEq, ByteHash)] #[repr(C)] pub struct Z0 {}
 #[derive(Clone, Copy, Pod, Zeroable, ByteEq, ByteHash)] #[repr(transparent)] pub struct Arr<const N: usize> { pub a: [u32; N] }
 #[derive(Clone, Copy, Pod, Zeroable, ByteEq, ByteHash)] #[repr(C)] pub struct Wide { pub a: u64, pub b: [u16; 3], pub c: [u8; 2], pub d: u64 }
+// enums: fieldless, and padding-free data-carrying ones whose NoUninit is written by hand (the derive is for any NoUninit type)
+#[derive(Clone, Copy, NoUninit, ByteEq, ByteHash)] #[repr(u16)] pub enum Fl { A = 1, B = 2, C = 0x300 }
+#[derive(Clone, Copy, ByteEq, ByteHash)] #[repr(u8)] pub enum Tg { Rgb(u8, u8, u8), Hsv(u8, u8, u8) }
+unsafe impl NoUninit for Tg {}
+#[derive(Clone, Copy, ByteEq, ByteHash)] #[repr(u32)] pub enum Tw { Raw([u8; 4]), Fl(f32) }
+unsafe impl NoUninit for Tw {}
 // a value and every value that differs from it in exactly one byte (every position): no byte may be ignored
 fn one_byte_variants<T: Pod>(base: T) -> Vec<T> {
   let n = core::mem::size_of::<T>(); let mut v = vec![base, base];
@@ -1028,6 +1063,9 @@ pub fn facts() -> String {
   pairs(14, &one_byte_variants(Arr::<7> { a: [0x01020304; 7] }), &mut out);
   pairs(15, &one_byte_variants(Wide { a: 1, b: [2, 3, 4], c: [5, 6], d: 7 }), &mut out);
   pairs(16, &one_byte_variants(Key { a: 1, b: [0; 8] }), &mut out);
+  pairs(17, &[Fl::A, Fl::B, Fl::C, Fl::A, Fl::C], &mut out);
+  pairs(18, &[Tg::Rgb(0, 0, 0), Tg::Rgb(0, 0, 1), Tg::Rgb(0, 0, 0), Tg::Hsv(0, 0, 0), Tg::Hsv(9, 0, 0), Tg::Rgb(9, 0, 0)], &mut out);
+  pairs(19, &[Tw::Raw([0, 0, 0, 0]), Tw::Fl(0.0), Tw::Fl(-0.0), Tw::Raw([0, 0, 0, 0x80]), Tw::Fl(nan1), Tw::Fl(nan2), Tw::Fl(nan1), Tw::Raw([0, 0, 0, 0])], &mut out);
   out.join("|")
 }
 '''
@@ -1046,3 +1084,47 @@ def bytes_set(tier, seed):
             continue
         lines.append("%s 0 0 0 0 0 0 0 %s - ; V %s ; b0 ; 3" % (w[0], w[1], " ".join(w[2:])))
     return lines, {"definitions": 10, "modules": 1}, None
+
+
+# ----------------------------------------------------------------------------- TransparentWrapperAlloc on unsized wrappers (C13)
+API_PRELUDE = """
+use bytemuck::TransparentWrapper;
+use bytemuck::allocation::TransparentWrapperAlloc;
+use std::rc::Rc; use std::sync::Arc;
+#[repr(transparent)] pub struct WS<T: ?Sized>(pub T);
+unsafe impl<T> TransparentWrapper<[T]> for WS<[T]> {}
+unsafe impl TransparentWrapper<str> for WS<str> {}
+#[repr(transparent)] #[derive(Clone, Copy, PartialEq, Debug)] pub struct WV(pub u32);
+unsafe impl TransparentWrapper<u32> for WV {}
+pub trait Speak { fn speak(&self) -> u32; }
+pub struct Dog(pub u32); impl Speak for Dog { fn speak(&self) -> u32 { self.0 + 1 } }
+unsafe impl TransparentWrapper<dyn Speak> for WS<dyn Speak> {}
+"""
+API_CASES = [
+    ("api_box_slice", "let b: Box<[u8]> = vec![1u8, 2, 3].into_boxed_slice(); let p = b.as_ptr() as usize; let w: Box<WS<[u8]>> = WS::<[u8]>::wrap_box(b);"
+     " let ok1 = w.0.as_ptr() as usize == p && w.0.len() == 3; let back: Box<[u8]> = WS::<[u8]>::peel_box(w); ok1 && back.as_ptr() as usize == p && &*back == &[1u8, 2, 3][..]"),
+    ("api_box_str", "let b: Box<str> = String::from(\"héllo\").into_boxed_str(); let p = b.as_ptr() as usize; let w: Box<WS<str>> = WS::<str>::wrap_box(b);"
+     " let back: Box<str> = WS::<str>::peel_box(w); back.as_ptr() as usize == p && &*back == \"héllo\""),
+    ("api_box_dyn", "let b: Box<dyn Speak> = Box::new(Dog(4)); let w: Box<WS<dyn Speak>> = WS::<dyn Speak>::wrap_box(b); let ok1 = w.0.speak() == 5;"
+     " let back: Box<dyn Speak> = WS::<dyn Speak>::peel_box(w); ok1 && back.speak() == 5"),
+    ("api_rc_slice", "let r: Rc<[u16]> = Rc::from(vec![7u16, 8]); let keep = r.clone(); let p = r.as_ptr() as usize; let w: Rc<WS<[u16]>> = WS::<[u16]>::wrap_rc(r);"
+     " let ok1 = Rc::strong_count(&keep) == 2 && w.0.as_ptr() as usize == p; let back: Rc<[u16]> = WS::<[u16]>::peel_rc(w); ok1 && Rc::strong_count(&keep) == 2 && &*back == &[7u16, 8][..]"),
+    ("api_arc_slice", "let r: Arc<[u16]> = Arc::from(vec![7u16, 8]); let keep = r.clone(); let p = r.as_ptr() as usize; let w: Arc<WS<[u16]>> = WS::<[u16]>::wrap_arc(r);"
+     " let ok1 = Arc::strong_count(&keep) == 2 && w.0.as_ptr() as usize == p; let back: Arc<[u16]> = WS::<[u16]>::peel_arc(w); ok1 && Arc::strong_count(&keep) == 2 && &*back == &[7u16, 8][..]"),
+    ("api_arc_str", "let r: Arc<str> = Arc::from(\"abc\"); let p = r.as_ptr() as usize; let w: Arc<WS<str>> = WS::<str>::wrap_arc(r); let back: Arc<str> = WS::<str>::peel_arc(w); back.as_ptr() as usize == p && &*back == \"abc\""),
+    ("api_box_sized", "let b = Box::new(5u32); let p = &*b as *const u32 as usize; let w: Box<WV> = WV::wrap_box(b); let back: Box<u32> = WV::peel_box(w); &*back as *const u32 as usize == p && *back == 5"),
+    ("api_vec_sized", "let v = vec![1u32, 2, 3]; let p = v.as_ptr() as usize; let w: Vec<WV> = WV::wrap_vec(v); let back: Vec<u32> = WV::peel_vec(w); back.as_ptr() as usize == p && back == vec![1, 2, 3]"),
+]
+
+
+def api_set(tier, seed):
+    mods = [(m, API_PRELUDE + "pub fn facts() -> String { let ok: bool = { %s }; format!(\"{}\", ok as u8) }" % body) for (m, body) in API_CASES]
+    v, f, err = compile_verdicts("api-" + tier, PRELUDE, mods)
+    if err:
+        return [], {}, err
+    lines = []
+    for k, (m, _) in enumerate(API_CASES):
+        comp = 1 if (v.get(m, "x") is None and m in f) else 0
+        ok = int(f[m].strip()) if comp else 0
+        lines.append("531 0 0 0 0 0 0 0 %d - ; V %d %d ; %s ; 3" % (k, comp, ok, m))
+    return lines, {"definitions": len(API_CASES), "modules": len(mods)}, None
